@@ -294,6 +294,7 @@ class Coll(object):
         else:
             self.wclass = "weights-switched-off"
         self.tag = "rooted" if self.is_rooted else "unrooted"
+        self.tag3 = "rooted" if self.rooted else ("unrooted" if self.rooted is False else "undefined-rooting")
         # splits induced by two edges of one input tree (after the documented collapse of an unrooted basal
         # bifurcation): only the two-leaf unrooted tree in this universe
         self.twice = set()
@@ -646,7 +647,7 @@ def check_collapse(c, obj, route, sn_target, t, ctx, detail):
         else:
             obj.collapse_edges_with_less_than_minimum_support(tree, min_freq=t)
     except Exception as e:
-        ctx.violation(sig0 + "exception|%s" % type(e).__name__, repr(e), c.case(route=route, t=t, **detail))
+        ctx.violation(sig0 + "exception|%s|%s" % (type(e).__name__, c.tag3), repr(e), c.case(route=route, t=t, **detail))
         return False
     probs = ref.wellformed(tree)
     if probs:
@@ -699,6 +700,7 @@ def check_mcc(c, tl, ta, ctx):
         if idx not in arg:
             ctx.violation("mcc:TreeArray.%s|index-not-at-maximum" % calc, "scores %r, reported index %r" % (scores, idx),
                           c.case(score=score))
+        tl = c.treelist()
         for route, holder in (("TreeArray", ta), ("TreeList", tl)):
             ctx.case(("mcc", c.base_key, score, route), nontrivial=bool(c.nontrivial))
             ctx.count("credibility_trees")
@@ -706,7 +708,7 @@ def check_mcc(c, tl, ta, ctx):
             try:
                 t = getattr(holder, tmeth)()
             except Exception as e:
-                ctx.violation("mcc:%s|exception|%s" % (name, type(e).__name__), repr(e), c.case(score=score, route=route))
+                ctx.violation("mcc:%s|exception|%s|%s" % (name, type(e).__name__, c.tag3), repr(e), c.case(score=score, route=route))
                 continue
             probs = ref.wellformed(t)
             if probs:
@@ -753,7 +755,9 @@ def call_consensus(route, tl, ta, sd, t, c, kw):
             args["use_tree_weights"] = c.utw
         if c.lens == "ultra" and c.is_rooted:
             args["ignore_node_ages"] = False
-        return tl.consensus(**args)
+        # at the default threshold the shared list is used (its trees have been through split_distribution() and
+        # earlier calls); elsewhere a fresh list, so that one call's side effects on the trees cannot mask another's result
+        return (tl if t == "default" else c.treelist()).consensus(**args)
     raise ValueError(route)
 
 
@@ -773,13 +777,13 @@ def check_collection(cfg, ctx):
         tl = c.treelist()
         sd = tl.split_distribution(**sdkw)
     except Exception as e:
-        ctx.violation("freq:TreeList.split_distribution|exception|%s" % type(e).__name__, repr(e), c.case())
+        ctx.violation("freq:TreeList.split_distribution|exception|%s|%s" % (type(e).__name__, c.tag3), repr(e), c.case())
         return
     ok_sd = check_freqs(c, sd, "TreeList.split_distribution", ctx)
     try:
-        ta = tl.as_tree_array(**sdkw)
+        ta = c.treelist().as_tree_array(**sdkw)   # a fresh list: the routes do not see each other's side effects
     except Exception as e:
-        ctx.violation("freq:TreeArray|exception|%s" % type(e).__name__, repr(e), c.case(route="TreeList.as_tree_array"))
+        ctx.violation("freq:TreeArray|exception|%s|%s" % (type(e).__name__, c.tag3), repr(e), c.case(route="TreeList.as_tree_array"))
         return
     ok_ta = check_freqs(c, ta.split_distribution, "TreeArray", ctx, "as_tree_array")
     # incremental accession with the frequency table read (and therefore cached) after every tree
@@ -792,7 +796,7 @@ def check_collection(cfg, ctx):
             if c.has_lengths:
                 ta2.split_distribution.split_edge_length_summaries
     except Exception as e:
-        ctx.violation("freq:TreeArray|exception|%s" % type(e).__name__, repr(e), c.case(route="TreeArray.add_tree"))
+        ctx.violation("freq:TreeArray|exception|%s|%s" % (type(e).__name__, c.tag3), repr(e), c.case(route="TreeArray.add_tree"))
         return
     ok_ta2 = check_freqs(c, ta2.split_distribution, "TreeArray", ctx, "add_tree-with-reads-in-between")
     if not (ok_ta and ok_ta2):
@@ -833,7 +837,7 @@ def check_collection(cfg, ctx):
                     ckw = ATTR_ONLY
                 C = call_consensus(route, tl, ta2 if route == "TreeArray.consensus_tree" and t == "default" else ta, sd, t, c, ckw)
             except Exception as e:
-                ctx.violation("consensus:%s|exception|%s" % (route, type(e).__name__), repr(e), c.case(route=route, t=t))
+                ctx.violation("consensus:%s|exception|%s|%s" % (route, type(e).__name__, c.tag3), repr(e), c.case(route=route, t=t))
                 continue
             if check_consensus(c, C, t_eff, route, ctx, {"t": t}) and summ:
                 ctx.case(("cons-summ", c.base_key, t, route), nontrivial=nt)
@@ -886,7 +890,7 @@ def check_collection(cfg, ctx):
                     try:
                         obj.summarize_splits_on_tree(tree, **kw2)
                     except Exception as e:
-                        ctx.violation("summarize:%s|exception|%s" % (route, type(e).__name__), repr(e),
+                        ctx.violation("summarize:%s|exception|%s|%s" % (route, type(e).__name__, c.tag3), repr(e),
                                       c.case(route=route, setting=sname, target=ref.to_newick(sn)))
                         continue
                     check_summary(c, tree, route, sname, kw2, ctx, {"target": ref.to_newick(sn), "target_kind": what})
@@ -909,7 +913,7 @@ def check_collection(cfg, ctx):
                     try:
                         C = call_consensus(route, tl, ta, sd, t, c, kw)
                     except Exception as e:
-                        ctx.violation("consensus:%s|exception|%s" % (route, type(e).__name__), repr(e),
+                        ctx.violation("consensus:%s|exception|%s|%s" % (route, type(e).__name__, c.tag3), repr(e),
                                       c.case(route=route, t=t, setting=sname))
                         continue
                     check_summary(c, C, route, sname, kw, ctx, {"t": t, "target": "consensus"})
@@ -970,7 +974,7 @@ def bounds(tier):
                                   "k<=2 and n=3: use_tree_weights=True lean, False flagoff; n=4,k=3: lean/flagoff for multisets of binary "
                                   "shapes with weights over {1,2}, frequency tables for every other multiset (use_tree_weights=False: "
                                   "binary multisets only)")},
-        "C_ages": {"n": [3, 4] if q else [3, 4, 5], "k_max": 3, "k3_pool": "binary for n=5%s" % (" and n=4" if q else ""),
+        "C_ages": {"n": [3, 4] if q else [3, 4, 5], "k_max": "3 (n=5: 2)", "k3_pool": "binary shapes for n=4" if q else "all shapes",
                    "rooted_only": True, "lens": "ultra", "profile": "ages"},
         "thresholds": "complete menu per collection: attainable frequencies, midpoints, 0.5, 1.0, default",
         "profiles": {"full": "3 consensus routes x every threshold; 7 summarisation settings; every tree of U(n) as target",
@@ -1044,7 +1048,9 @@ def chunks(tier):
     for n in ((3, 4) if q else (3, 4, 5)):
         for k in (1, 2, 3):
             pl = "all"
-            if k == 3 and (n == 5 or (q and n == 4)):
+            if k == 3 and n == 5:
+                continue
+            if k == 3 and q and n == 4:
                 pl = "binary"
             total = _nmultisets(len(pool(n, pl)), k)
             for lo, hi in _slices(total, 60 if n < 5 else 200):
